@@ -1,0 +1,100 @@
+/* This Source Code Form is subject to the terms of the Mozilla Public
+ * License, v. 2.0. If a copy of the MPL was not distributed with this
+ * file, You can obtain one at http://mozilla.org/MPL/2.0/. */
+
+//! Verification hooks (only compiled with `--cfg abra_verif`): read-only dumps of the assembly
+//! before/after each peephole pass and of the source-location tables, and a per-thread switch that
+//! skips the peephole optimizer. Nothing here changes behaviour unless the switch is set.
+
+use crate::assembly::Line;
+use crate::translate_bytecode::CompiledProgram;
+use std::cell::{Cell, RefCell};
+
+thread_local! {
+    static SKIP_OPTIMIZE: Cell<bool> = const { Cell::new(false) };
+    static TRACE: RefCell<Option<Vec<Vec<(String, String)>>>> = const { RefCell::new(None) };
+}
+
+/// When set, `optimize` returns its input unchanged on this thread.
+pub fn set_skip_optimize(skip: bool) {
+    SKIP_OPTIMIZE.with(|c| c.set(skip));
+}
+
+pub(crate) fn skip_optimize() -> bool {
+    SKIP_OPTIMIZE.with(|c| c.get())
+}
+
+/// Start recording the line list handed to every `optimization_pass` (and the final result)
+/// of compilations on this thread.
+pub fn start_optimize_trace() {
+    TRACE.with(|t| *t.borrow_mut() = Some(vec![]));
+}
+
+/// Stop recording. Element 0 is the unoptimized assembly, the last element the optimized one
+/// (nothing is recorded while the optimizer is skipped). Each line is given in two renderings:
+/// `.0` = `L <label>` or `I <file_id> <lineno> <func_id> <Debug of the instruction>`,
+/// `.1` = the `Display` form of the line (`\tpush_int 3`, `label:`).
+pub fn take_optimize_trace_both() -> Vec<Vec<(String, String)>> {
+    TRACE.with(|t| t.borrow_mut().take().unwrap_or_default())
+}
+
+/// Annotated `Debug` rendering only.
+pub fn take_optimize_trace() -> Vec<Vec<String>> {
+    take_optimize_trace_both()
+        .into_iter()
+        .map(|p| p.into_iter().map(|l| l.0).collect())
+        .collect()
+}
+
+/// `Display` rendering only.
+pub fn take_optimize_trace_display() -> Vec<Vec<String>> {
+    take_optimize_trace_both()
+        .into_iter()
+        .map(|p| p.into_iter().map(|l| l.1).collect())
+        .collect()
+}
+
+pub(crate) fn record_lines(lines: &[Line]) {
+    TRACE.with(|t| {
+        if let Some(v) = t.borrow_mut().as_mut() {
+            v.push(lines.iter().map(|l| (render_line(l), l.to_string())).collect());
+        }
+    });
+}
+
+/// `L <label>` or `I <file_id> <lineno> <func_id> <Debug of the instruction>`
+fn render_line(l: &Line) -> String {
+    match l {
+        Line::Label(s) => format!("L {s}"),
+        Line::Instr { instr, lineno, file_id, func_id } => {
+            format!("I {file_id} {lineno} {func_id} {instr:?}")
+        }
+    }
+}
+
+#[derive(Debug, Clone)]
+pub struct ProgramDump {
+    pub instructions: Vec<String>,
+    pub int_constants: Vec<i64>,
+    pub float_constants_bits: Vec<u64>,
+    pub static_strings: Vec<String>,
+    pub filename_arena: Vec<String>,
+    pub function_name_arena: Vec<String>,
+    pub filename_table: Vec<(u32, u32)>,
+    pub lineno_table: Vec<(u32, u32)>,
+    pub function_name_table: Vec<(u32, u32)>,
+}
+
+pub fn dump_program(p: &CompiledProgram) -> ProgramDump {
+    ProgramDump {
+        instructions: p.instructions.iter().map(|i| format!("{i:?}")).collect(),
+        int_constants: p.int_constants.clone(),
+        float_constants_bits: p.float_constants.iter().map(|f| f.to_bits()).collect(),
+        static_strings: p.static_strings.clone(),
+        filename_arena: p.filename_arena.clone(),
+        function_name_arena: p.function_name_arena.clone(),
+        filename_table: p.filename_table.clone(),
+        lineno_table: p.lineno_table.clone(),
+        function_name_table: p.function_name_table.clone(),
+    }
+}
